@@ -218,36 +218,65 @@ def rule_call_parens(ctx, prop):
                 rep.anchor(False, f"format_function_args[{arm}]: too many paths", cfg)
                 continue
             seen = set()
+
+            def k3_or(a, b):
+                if a is True or b is True:
+                    return True
+                if a is False and b is False:
+                    return False
+                return None
+
+            def k3_and(a, b):
+                if a is False or b is False:
+                    return False
+                if a is True and b is True:
+                    return True
+                return None
+
+            def k3_not(a):
+                return None if a is None else (not a)
             for st in res:
                 v = st.vals.get(0)
                 out = v[2] if v and v[0] == "agg" else "?"
                 k = _key_like(st, ".call_parentheses")
-                is_input = st.disc.get(k) == "Input" if k else False
-                not_input = k is not None and st.disc.get(k) != "Input" and st.disc.get(k) is not None
+                cons = st.disc.get(k) if k else None
+                # three-valued facts established on this path (None = not established: the path covers both)
+                if cons is None:
+                    is_input = None
+                elif isinstance(cons, str):
+                    is_input = cons == "Input"
+                else:
+                    is_input = False if "Input" in cons[1] else None
                 omit = None
                 for cb, dec in st.decisions.items():
                     if callee(f.blocks[cb]["term"]).endswith(pred):
                         omit = dec
                 nn = st.disc.get(f"arg:{ni}")
-                obscure = nn == "ObscureWithoutParens"
-                keep_expected = is_input or (omit is True and not obscure)
+                if nn is None:
+                    obscure = None
+                elif isinstance(nn, str):
+                    obscure = nn == "ObscureWithoutParens"
+                else:
+                    obscure = False if "ObscureWithoutParens" in nn[1] else None
+                keep_expected = k3_or(is_input, k3_and(omit, k3_not(obscure)))
                 sig = (out, is_input, omit, obscure)
                 if sig in seen:
                     continue
                 seen.add(sig)
                 if out == arm:
-                    ok = keep_expected
+                    ok = keep_expected is True
                 elif out == "Parentheses":
-                    ok = not keep_expected
+                    ok = keep_expected is False
                 else:
                     ok = False
                 rep.inst(f"{f.key} [{arm}] input={is_input} omit={omit} obscure={obscure} -> {out}",
                          {"arm": arm, "returns": out}, cfg, ok=ok)
                 if not ok:
                     rep.violation(f"{f.key} [{arm}] input={is_input} omit={omit} obscure={obscure} returns={out}",
-                                  f"format_function_args({arm}) returns {out} when call_parentheses==Input is "
-                                  f"{is_input}, {pred} is {omit}, next-node-obscure is {obscure}: the option's "
-                                  f"documented meaning is violated", f.loc(), cfg)
+                                  f"format_function_args({arm}) returns {out} on a path where call_parentheses==Input is "
+                                  f"{is_input}, {pred} is {omit}, next-node-obscure is {obscure} (None = not examined on "
+                                  f"this path, i.e. both): the documented rule `keep as written iff Input or (omit and not "
+                                  f"obscure)` evaluates to {keep_expected}", f.loc(), cfg)
             rep.floor(f"decision rows of format_function_args[{arm}]", len(seen), 3, cfg)
         # Parentheses arm: conversion to sugar only if !Input && omit && len==1 && !Obscure
         try:
